@@ -122,6 +122,7 @@ type promoRow struct {
 	OptReg   []string           `json:"optreg"`
 	InSwitch bool               `json:"inswitch"`
 	LocksOK  bool               `json:"locksok"` // C03_SwitchRechecks observed for this promotion
+	RelayLost []string          `json:"relaylost"` // received by the promoted node, never applied, discarded by this promotion
 	FreezeSeen bool             `json:"freezeseen"`
 	Turbo    []string           `json:"turbo"` // hosts registered / relaxed by mysync itself inside this activation (speed-up phase)
 }
@@ -153,6 +154,7 @@ type actState struct {
 	lockAfterFreeze bool
 	lockAfterCatch  bool
 	state           string
+	relayLost       map[string][]string // host -> unapplied relay log content this activation discarded with RESET REPLICA ALL
 	told            bool // the last lock answer of this activation was "held"
 	toldTrue        int
 	nacts           int
@@ -355,6 +357,13 @@ func (o *vObserver) onEvent(ev *verifsim.TraceEvent, worldLocked bool) {
 			a.relaxAfterFreeze++
 		}
 		switch ev.Op {
+		case "ResetReplicaAll", "ChangeSource":
+			if ev.Val != "" {
+				if a.relayLost == nil {
+					a.relayLost = map[string][]string{}
+				}
+				a.relayLost[ev.At] = append(a.relayLost[ev.At], strings.Split(ev.Val, ",")...)
+			}
 		case "SetSuperReadOnly":
 			if a.inSwitch {
 				a.froze[ev.At] = true
@@ -378,7 +387,8 @@ func (o *vObserver) onEvent(ev *verifsim.TraceEvent, worldLocked bool) {
 				Cause: sw.Cause, Trans: string(sw.MasterTransition), From: sw.From, To: sw.To,
 				Recovery: pre.recovery, Cascade: o.cascadeHosts(),
 				OptReg: pre.optreg,
-				InSwitch: a.inSwitch, LocksOK: a.lockAfterFreeze && a.lockAfterCatch, FreezeSeen: a.anyFreeze, Turbo: nn(sortedKeys(a.turbo))}
+				InSwitch: a.inSwitch, LocksOK: a.lockAfterFreeze && a.lockAfterCatch, FreezeSeen: a.anyFreeze, Turbo: nn(sortedKeys(a.turbo)),
+				RelayLost: nn(a.relayLost[ev.At])}
 			if cfg.ASync && sw.Cause == CauseAuto && cfg.AsyncAllowedLag > 0 {
 				row.AsyncEsc = true
 			}
